@@ -8,7 +8,7 @@ export GOFLAGS=-mod=mod GOPROXY=off GOSUMDB=off GOTOOLCHAIN=local
 CW=/tmp/cw-$NAME
 git -C /repo worktree remove --force $CW 2>/dev/null
 git -C /repo worktree add --detach $CW HEAD -q || exit 3
-trap 'git -C /repo worktree remove --force '$CW' 2>/dev/null; git -C /repo checkout -- . 2>/dev/null' EXIT
+trap 'git -C /repo worktree remove --force '$CW' 2>/dev/null' EXIT
 mkdir -p $CW/$PKG; cp "$SD/demo_test.go" $CW/$PKG/zz_seeded_demo_test.go
 ( cd $CW && go test -count=1 -run "$PAT" ./$PKG/ >/tmp/cw-$NAME.clean.log 2>&1 ); CLEAN=$?
 ( cd $CW && git apply "$SD/patch.diff" ) || { echo "RESULT $NAME: patch does not apply to current HEAD"; exit 4; }
@@ -17,10 +17,9 @@ mkdir -p $CW/$PKG; cp "$SD/demo_test.go" $CW/$PKG/zz_seeded_demo_test.go
 rm -f $CW/$PKG/zz_seeded_demo_test.go
 /verif/tools/baseline.py $CW >/tmp/cw-$NAME.base.log 2>&1; BASE=$?
 echo "demo clean exit=$CLEAN (want 0), build=$BUILD (want 0), demo patched exit=$PATCHED (want !=0), baseline=$BASE (want 0)"
-git -C /repo apply "$SD/patch.diff" || exit 5
+# the check runs against the patched scratch worktree (same as applying the patch to /repo, but /repo stays untouched)
 cd /verif
-OUT=$(VERIF_BUDGET=$B ./check "$PROP" quick 2>&1); RC=$?
-git -C /repo checkout -- .
+OUT=$(VERIF_REPO=$CW VERIF_BUDGET=$B VERIF_WORKERS=${VERIF_WORKERS:-16} ./check "$PROP" quick 2>&1); RC=$?
 echo "$OUT" | grep -v "^  violation" | cut -c1-300 | tail -6
 echo "check exit=$RC"
 KEYS=$(echo "$OUT" | grep "^  violation key=" | sed 's/^  violation key=\([^:]*\):.*/\1/' | sort -u | tr '\n' ' ')
